@@ -161,6 +161,13 @@ def matrix_package(quick: bool):
             if {na, nb} == {"smap", "lmap"}:
                 continue   # the same type twice (MxLabel is string): yardl rejects the union, rightly
             nullable = (idx % 3 == 0)
+            # MxImplicit below holds [int32, bool], [string, MxEnum], [float32, float64] and a nullable [int32, MxRec] with implicit tags: the matrix
+            # union over the same case types gets the other nullability, so that the two are different C++ variant types (two unions with equal
+            # case types and different tags share one NDJSON converter: known finding c02-same-variant-different-tags, exercised in the thorough tier)
+            if {na, nb} in ({"int32", "bool"}, {"string", "enum"}, {"float32", "float64"}) and quick:
+                nullable = True
+            if {na, nb} == {"int32", "rec"} and quick:
+                nullable = False
             u = U(((na + "Case", ta), (nb + "Case", tb)), nullable, True)
             steps.append(("u%s%s" % (na.capitalize(), nb.capitalize()), u))
             idx += 1
